@@ -2,13 +2,14 @@
 from __future__ import annotations
 
 import corr_sumagg
+import corr_sumrewrite
 import semcheck
 import tgen
 import semprop
 from props import _generic
 
 MODULE = "NgoVerif.Props.C13"
-LEVEL = ('Lean: telescoping - base weight plus one difference per chain step equals the chosen value, for any sorted domain; sum over per-step tuple sets = sum of sums iff disjoint (the next atom in the tuple). The at-most-one analysis and eligibility tests are decisions of sum_aggregates.py (modelled when Model/SumAgg.lean is present): validated with clingo incl. per-group differing domains and costs.')
+LEVEL = ('Lean: telescoping - base weight plus one difference per chain step equals the chosen value, for any sorted domain; sum over per-step tuple sets = sum of sums iff disjoint (the next atom in the tuple). The at-most-one analysis and eligibility tests (Model/SumAgg.lean) and the whole rewriting - chain/next elements, requested domain rules, objectives, statement order, the in-place edit of shared element nodes - (Model/SumRewrite.lean) are executable models tied to sum_aggregates.py by corr_sumagg.py and corr_sumrewrite.py; their side conditions are: validated with clingo incl. per-group differing domains and costs.')
 RULE = ('oracle cases = programs harvested from /repo/tests (sum_aggregates first) mutations of them and programs of a targeted type-directed generator (harness/tgen.py) under sum_chains only, 5 instances each (empty, small integer/symbolic domains, dense tiny domains, duplicates) over the input predicates; compared: answer sets on voc(P) one-to-one + costs; non-trivial = the pass changed the program and at least one instance was compared; distinct by program+flags')
 EXTRA = ['{ shift(D,L) : pshift(D,L) } 1 :- day(D). #minimize { L@L,D : shift(D,L) }.', '{ shift(D,L) : pshift(D,L) } 1 :- day(D). :~ overtime(D,L). [L@1,D] :~ shift(D,L). [L@1,D] {overtime(D,L)} :- pshift(D,L).', '{ shift(D,L) : pshift(D,L) } 1 :- day(D). long_hours(S) :- S = #sum{L,D : shift(D,L), L > 8}.', '{ shift(D,L) : pshift(D,L) } 1 :- day(D). a(X) :- X = #sum{L,D : shift(D,L)}.']
 
@@ -17,9 +18,13 @@ def corr(rng, quick):
     return corr_sumagg.run(rng, 60 if quick else 2500, corpus_limit=60 if quick else None)
 
 
+def corr2(rng, quick):
+    return corr_sumrewrite.run(rng, 60 if quick else 2500, corpus_limit=60 if quick else None)
+
+
 def run(ctx) -> int:
     flags = [semcheck.flags_only("sum_chains")]
-    return _generic.run_semantic(ctx, MODULE, LEVEL, RULE, flags, 'voc', {'sum_aggregates'}, EXTRA, (110, 700), (80, 3000), corr=[('sumagg', corr)],
+    return _generic.run_semantic(ctx, MODULE, LEVEL, RULE, flags, 'voc', {'sum_aggregates'}, EXTRA, (110, 700), (80, 3000), corr=[('sumagg', corr), ('sumrewrite', corr2)],
                                  n_inst=5, facts_over='in', outp_choices=('auto',), one_to_one=True, generators=[tgen.GENERATORS['sum_chains']],
                                  assumptions=("the pass's syntactic decisions are not derived from the ground-level side conditions in Lean (validated by the oracle)", 'instances range over the declared/auto-detected input predicates only'))
 
